@@ -768,36 +768,101 @@ func defaultPolicies(spec filters.Spec) map[string]resilience.Policy {
 // RunFilter instantiates an accepted filter spec and sends the requests.
 // policies == nil: standalone filter (referenced policy names are bound to
 // default policies of the right kind).
-func RunFilter(spec filters.Spec, reqs []Req, obs *Obs) {
+func RunFilter(spec filters.Spec, reqs []Req, obs *Obs, docs ...interface{}) {
 	if why := SkipFilter(spec); why != "" {
 		obs.Inst = "skipped: " + why
 		return
 	}
 	obs.Inst = "ok"
-	var f filters.Filter
-	if !Stage(obs, "create", "CreateInstance", func() { f = filters.GetKind(spec.Kind()).CreateInstance(spec) }) || f == nil {
+	f := startFilter(spec, obs, nil)
+	if f == nil {
 		return
 	}
-	if !Stage(obs, "init", "Init", func() { f.Init() }) {
-		return
+	serveFilter(f, spec, reqs, obs, "Handle")
+	Settle()
+	// the update path: further generations built from the same document and from the variant
+	// inherit from the running instance, serve the requests and replace it
+	for gi, d := range docs {
+		if obs.Panic != "" || d == nil {
+			continue
+		}
+		tag := fmt.Sprintf("gen%d", gi+2)
+		if gi > 0 {
+			// the variant must be acceptable and serviceable on its own, otherwise it says nothing about Inherit
+			s0, err := filters.NewSpec(nil, "", cloneTree(d))
+			if err != nil || SkipFilter(s0) != "" {
+				continue
+			}
+			probe := &Obs{}
+			RunFilter(s0, reqs, probe)
+			if probe.Panic != "" {
+				continue
+			}
+		}
+		spec2, err := filters.NewSpec(nil, "", cloneTree(d))
+		if err != nil {
+			continue
+		}
+		prev := f
+		f2 := startFilter(spec2, obs, prev)
+		Stage(obs, "other", tag+".prev.Close", func() { prev.Close() })
+		if f2 == nil {
+			return
+		}
+		f, spec = f2, spec2
+		serveFilter(f, spec, reqs, obs, tag+".Handle")
+		Settle()
+	}
+	Stage(obs, "other", "Status", func() { f.Status() })
+	Stage(obs, "other", "Close", func() { f.Close() })
+}
+
+// startFilter creates an instance and initialises it (Init, or Inherit from prev: stage "other",
+// the update path has no modelled panic site).
+func startFilter(spec filters.Spec, obs *Obs, prev filters.Filter) filters.Filter {
+	var f filters.Filter
+	if !Stage(obs, "create", "CreateInstance", func() { f = filters.GetKind(spec.Kind()).CreateInstance(spec) }) || f == nil {
+		return nil
+	}
+	if prev == nil {
+		if !Stage(obs, "init", "Init", func() { f.Init() }) {
+			return nil
+		}
+	} else if !Stage(obs, "other", "Inherit", func() { f.Inherit(prev) }) {
+		return nil
 	}
 	if r, ok := f.(filters.Resiliencer); ok {
 		if pols := defaultPolicies(spec); pols != nil {
-			if !Stage(obs, "init", "InjectResiliencePolicy", func() { r.InjectResiliencePolicy(pols) }) {
-				return
+			cls := "init"
+			if prev != nil {
+				cls = "other"
+			}
+			if !Stage(obs, cls, "InjectResiliencePolicy", func() { r.InjectResiliencePolicy(pols) }) {
+				return nil
 			}
 		}
 	}
+	return f
+}
+
+func serveFilter(f filters.Filter, spec filters.Spec, reqs []Req, obs *Obs, at string) {
+	cls := "handle"
+	if at != "Handle" {
+		cls = "other"
+	}
 	var doc interface{}
-	if rq0 := reqs; len(rq0) > 0 {
+	if len(reqs) > 0 {
 		doc, _ = NormDoc(spec)
 	}
 	for i, rq := range reqs {
+		if obs.Panic != "" {
+			return
+		}
 		ctx := NewContextFor(doc, rq)
 		if ctx == nil {
 			continue
 		}
-		ok := Stage(obs, "handle", fmt.Sprintf("Handle#%d", i), func() {
+		ok := Stage(obs, cls, fmt.Sprintf("%s#%d", at, i), func() {
 			res := f.Handle(ctx)
 			if res != "" {
 				found := false
@@ -814,9 +879,6 @@ func RunFilter(spec filters.Spec, reqs []Req, obs *Obs) {
 			break
 		}
 	}
-	Settle()
-	Stage(obs, "other", "Status", func() { f.Status() })
-	Stage(obs, "other", "Close", func() { f.Close() })
 }
 
 // Settle gives goroutines spawned by a handler (mirror pool) a moment to run,
@@ -864,7 +926,7 @@ func ObserveFilter(in *In, inst bool) *Obs {
 	if !inst {
 		return obs
 	}
-	RunFilter(spec, in.Reqs, obs)
+	RunFilter(spec, in.Reqs, obs, in.Doc, in.Doc2)
 	return obs
 }
 
